@@ -19,6 +19,7 @@ import time
 VERIF_DIR = os.path.dirname(os.path.dirname(os.path.abspath(__file__)))
 REPO_DIR = os.environ.get('VERIF_REPO', '/repo')
 PY = os.path.join(VERIF_DIR, '.venv', 'bin', 'python')
+OUT_DIR = os.environ.get('VERIF_OUT_DIR', VERIF_DIR)   # evidence/ and replays/ live here (scratch runs redirect it)
 NPROC = int(os.environ.get('VERIF_JOBS', '0')) or max(2, (os.cpu_count() or 4) - 1)
 
 
@@ -176,8 +177,8 @@ def run_property(pid, meta, jobs, tier, seed, extra_conformance=None, needs_mode
     extra_conformance: optional callable returning a dict {'name':..., 'cases':..., 'disagreements':..., 'first': [...]}
     """
     t0 = time.time()
-    os.makedirs(os.path.join(VERIF_DIR, 'evidence'), exist_ok=True)
-    os.makedirs(os.path.join(VERIF_DIR, 'replays'), exist_ok=True)
+    os.makedirs(os.path.join(OUT_DIR, 'evidence'), exist_ok=True)
+    os.makedirs(os.path.join(OUT_DIR, 'replays'), exist_ok=True)
     findings = load_known_findings()
     harness_errors = []
     conformance = {}
@@ -224,7 +225,7 @@ def run_property(pid, meta, jobs, tier, seed, extra_conformance=None, needs_mode
             # a canary must flip to a reproduced counterexample
             caught = False
             if v == 'counterexample' and r.get('cex'):
-                path = os.path.join(VERIF_DIR, 'replays', 'tmp', '%s-%s-canary.json' % (pid, _h(job.name)))
+                path = os.path.join(OUT_DIR, 'replays', 'tmp', '%s-%s-canary.json' % (pid, _h(job.name)))
                 os.makedirs(os.path.dirname(path), exist_ok=True)
                 json.dump(r['cex'][0], open(path, 'w'))
                 rr = replay(job, r['cex'][0], path)
@@ -248,7 +249,7 @@ def run_property(pid, meta, jobs, tier, seed, extra_conformance=None, needs_mode
             for k, rec in enumerate(r.get('cex', [])):
                 blob = json.dumps({'property': pid, 'job': job.name, 'module': job.module, 'harness': job.harness,
                                    'params': job.params, 'engine': job.engine, 'record': rec}, sort_keys=True)
-                path = os.path.join(VERIF_DIR, 'replays', '%s-%s.json' % (pid, _h(blob)))
+                path = os.path.join(OUT_DIR, 'replays', '%s-%s.json' % (pid, _h(blob)))
                 json.dump(rec, open(path + '.rec', 'w'))
                 rr = replay(job, rec, path + '.rec')
                 replays_done += 1
@@ -334,7 +335,7 @@ def run_property(pid, meta, jobs, tier, seed, extra_conformance=None, needs_mode
         'wall_s': round(time.time() - t0, 2),
         'violations': len(violations),
     }
-    with open(os.path.join(VERIF_DIR, 'evidence', pid + '.json'), 'w') as f:
+    with open(os.path.join(OUT_DIR, 'evidence', pid + '.json'), 'w') as f:
         json.dump(ev, f, indent=1, default=repr)
     print('SUMMARY property=%s tier=%s jobs=%d confirmed=%d inconclusive=%d violations=%d known=%d paths=%d queries=%d wall=%.0fs'
           % (pid, tier, len(jobs), len(confirmed), len(inconclusive), len(violations), len(printed), tot['paths'],
